@@ -19,6 +19,7 @@ from typing import Dict, List, Optional, Set, Tuple
 import sympy as sp
 
 from ..alias import Analyzer, is_P
+from ..consteval import Opaque
 from ..index import AnalysisError, ClassInfo, FunctionInfo, Index, norm, own_nodes
 from ..report import Report
 from ..rules.purity import check_purity
@@ -47,6 +48,7 @@ def run(idx: Index, rep: Report, tier: str):
     check_subclass_attr_guards(idx, rep)
     check_multiform_tables(idx, rep)
     check_multiform_semantics(idx, rep, tier)
+    check_scalar_arithmetic(idx, rep)
     check_index_ranges(idx, rep)
     check_resync_after_compress(idx, rep)
     check_plain_operand_guard(idx, rep)
@@ -356,6 +358,130 @@ def check_multiform_semantics(idx: Index, rep: Report, tier: str):
                what="the product of two array-form operators has the terms and coefficients of the symbolic product, duplicate words added up, one row per term",
                reason="; ".join(bad_p[:2]))
     rep.floor("array-form pairs folded", n + m, 300)
+    # methods that change an array-form operator in place (remove_terms, and _update after the terms were replaced): the operator that results has to
+    # behave as the symbolic operator it now stands for - in the commutation test as first and as second operand, and in the product
+    rm = idx.function(f"{MULTI}::MultiformOperator.remove_terms")
+    upd = idx.function(f"{MULTI}::MultiformOperator._update")
+    three = [{word("ZZ"): -1.5, word("XX"): 1.0, word("YY"): 1.0}, {word("XY"): 1j, word("YX"): -1j, word("II"): 0.5}, {word("XZ"): 1.0, word("IY"): 2.0, word("ZI"): 0.5, word("YY"): 0.25}]
+    probes = [len(words) + k for k in range(len(multi))] + [words.index("XI"), words.index("ZY")]
+    bad_m, k = [], 0
+
+    def behaves_as(form, terms, label):
+        nonlocal k
+        got_terms = {kk: complex(v) for kk, v in form.fields["terms"].items()}
+        if set(got_terms) != set(terms) or any(abs(got_terms[w] - terms[w]) > 1e-9 for w in terms):
+            bad_m.append(f"{label}: terms are {_show(got_terms)}, expected {_show(terms)}")
+            return
+        for j in probes:
+            tb = ops[j]
+            for first, second, fa, fb in ((terms, tb, form, forms[j]), (tb, terms, forms[j], form)):
+                per = [not any(anti(wa, wb) for wb in second) for wa in first]
+                g_all = folder().run_function(dc.node, {"hybrid_op_a": fa, "hybrid_op_b": fb, "term_resolved": False})
+                g_t = folder().run_function(dc.node, {"hybrid_op_a": fa, "hybrid_op_b": fb, "term_resolved": True})
+                k += 1
+                if bool(g_all) != all(per) or [bool(x) for x in list(g_t)] != per:
+                    bad_m.append(f"{label}: do_commute({_show(first)}, {_show(second)}) = {bool(g_all)} / {[bool(x) for x in list(g_t)]}, the symbolic test gives {all(per)} / {per}")
+            want = {}
+            for wa, ca in terms.items():
+                for wb, cb in tb.items():
+                    ph, w = _simplify(tuple(wa) + tuple(wb))
+                    want[w] = want.get(w, 0) + ca * cb * ph
+            want = {kk: v for kk, v in want.items() if abs(v) > 1e-12}
+            prod = folder().call_funcval(FuncVal(mul.node, bound_self=form, home=MULTI), [forms[j]], {})
+            got = {kk: complex(v) for kk, v in prod.fields["terms"].items() if abs(complex(v)) > 1e-12}
+            k += 1
+            if set(got) != set(want) or any(abs(got[w] - want[w]) > 1e-9 for w in want):
+                bad_m.append(f"{label}: product with {_show(tb)} = {_show(got)}, symbolic product {_show(want)}")
+    try:
+        for t in three:
+            keys = list(t)
+            for removed in ([0], [len(keys) - 1], 1) + (([0, 2],) if len(keys) > 3 else ()):
+                form = folder().call_funcval(FuncVal(fq.node, home=MULTI), [cls, qop(t), 2], {})
+                import numpy as _np
+                folder().call_funcval(FuncVal(rm.node, bound_self=form, home=MULTI), [removed if isinstance(removed, int) else _np.array(removed)], {})
+                gone = {removed} if isinstance(removed, int) else set(removed)
+                behaves_as(form, {w: complex(c) for i, (w, c) in enumerate(t.items()) if i not in gone}, f"remove_terms({removed}) on {_show(t)}")
+            # the terms replaced (what the inherited in-place arithmetic does), then the documented re-synchronisation
+            form = folder().call_funcval(FuncVal(fq.node, home=MULTI), [cls, qop(t), 2], {})
+            newt = {w: complex(c) for w, c in list(three[(three.index(t) + 1) % len(three)].items())}
+            form.fields["terms"] = dict(newt)
+            folder().call_funcval(FuncVal(upd.node, bound_self=form, home=MULTI), [2], {})
+            behaves_as(form, newt, f"_update after the terms became {_show(newt)}")
+    except Undecidable as e:
+        raise AnalysisError(f"MultiformOperator.remove_terms / _update not foldable: {e}")
+    except Raised as e:
+        bad_m.append(f"raises {e.exc_type}")
+    rep.decide(not bad_m, rule, rm, rm.node, text=f"remove_terms and _update: {k} commutation tests and products on the operator that results",
+               what="after terms are removed or the arrays are rebuilt, the array-form operator behaves as the symbolic operator it now stands for (commutation test in "
+                    "either operand position, product)", reason="; ".join(bad_m[:2]))
+    if not bad_m:
+        rep.floor("array-form operators after in-place changes: tests folded", k, 100)
+
+
+def check_scalar_arithmetic(idx: Index, rep: Report):
+    """Sum and difference of a fermionic operator and a scalar, with the operator on either side and in place, folded for every kind of scalar the class
+    admits (python int / float / complex, numpy floating, signed and unsigned numpy integers): the constant of the result is the exact sum or difference
+    computed by the checker on python numbers, the other terms are unchanged (negated for scalar - operator), and the out-of-place forms leave the operand
+    as it was.  What the class inherits from openfermion (the constant property, multiplication by a number) is a checker-side model."""
+    import numpy as np
+    from ..consteval import FuncVal, Raised, Rec, Undecidable
+    from ..rules import circuitsem as cs
+    rule = "K9.scalar-arithmetic"
+    cls = cs.module_resolver(idx, OPS)("FermionOperator")
+    if cls is None:
+        raise AnalysisError("FermionOperator not resolvable")
+    samples = [3, -2, 2.5, 1j, 0.5 - 2j, np.float64(2.5), np.float32(0.5), np.int64(3), np.int8(-3), np.uint8(3), np.uint16(7), np.uint64(5), np.complex128(1 + 2j)]
+    word = ((0, 1), (0, 0))
+    c0, t0 = 1.0, 2.0
+
+    def hook(v, t):
+        if t in ("FermionOperator", "of.FermionOperator", "QubitOperator", "of.QubitOperator"):
+            return isinstance(v, Rec)
+        if t == "COEFFICIENT_TYPES":
+            return isinstance(v, (int, float, complex, np.integer, np.floating)) and not isinstance(v, bool) or \
+                isinstance(v, sp.Basic) if not isinstance(v, Rec) else False
+        return None
+
+    def scaled(rec, k):
+        if isinstance(k, (Rec, Opaque)):
+            raise Undecidable("operator product")
+        out = Rec(rec.cls, dict(rec.fields))
+        out.cls_val = rec.cls_val
+        out.fields["terms"] = {w: c * k for w, c in rec.fields["terms"].items()}
+        out.fields["constant"] = rec.fields["constant"] * k
+        return out
+    forms = {"__iadd__": (1, 1, True), "__add__": (1, 1, False), "__radd__": (1, 1, False), "__isub__": (1, -1, True), "__sub__": (1, -1, False), "__rsub__": (-1, 1, False)}
+    n = 0
+    for name, (sign_op, sign_s, inplace) in forms.items():
+        f = idx.function(f"{OPS}::FermionOperator.{name}")
+        bad = []
+        for sc in samples:
+            exact = sc.item() if isinstance(sc, np.generic) else sc
+            fo = cs.make_folder(idx, OPS, ctors={})
+            fo.real_arrays = True
+            fo.isinstance_hook = hook
+            fo.inherited_dunders = {"__mul__": scaled, "__rmul__": scaled, "__neg__": lambda r, _=None: scaled(r, -1)}
+            r = Rec("FermionOperator", {"terms": {word: t0}, "constant": c0, "n_spinorbitals": None, "n_electrons": None, "spin": None})
+            r.cls_val = cls
+            try:
+                out = fo.call_funcval(FuncVal(f.node, bound_self=r, home=OPS), [sc], {})
+            except Undecidable as e:
+                raise AnalysisError(f"FermionOperator.{name} not foldable on a {type(sc).__name__}: {e}")
+            except Raised as e:
+                bad.append(f"{type(sc).__name__}({sc}): raises {e.exc_type}")
+                continue
+            n += 1
+            want_c, want_t = sign_op * c0 + sign_s * exact, sign_op * t0
+            if not isinstance(out, Rec):
+                bad.append(f"{type(sc).__name__}({sc}): returns {out!r}")
+            elif abs(complex(out.fields["constant"]) - complex(want_c)) > 1e-12 or abs(complex(out.fields["terms"].get(word, 0)) - want_t) > 1e-12:
+                bad.append(f"{type(sc).__name__}({sc}): constant {complex(out.fields['constant']):g}, term {complex(out.fields['terms'].get(word, 0)):g}; exact result {complex(want_c):g}, {want_t:g}")
+            elif inplace != (out is r) or (not inplace and (r.fields["constant"] != c0 or r.fields["terms"] != {word: t0})):
+                bad.append(f"{type(sc).__name__}({sc}): {'a new object is returned by the in-place form' if inplace else 'the operand is changed by the out-of-place form'}")
+        rep.decide(not bad, rule, f, f.node, text=f"FermionOperator.{name} with {len(samples)} kinds of scalar",
+                   what="operator and scalar combine to the exact sum / difference for every admitted kind of scalar, on either side, leaving the operand of the out-of-place forms unchanged",
+                   reason="; ".join(bad[:3]))
+    rep.floor("scalar arithmetic cases folded", n, 60)
 
 
 def _show(terms) -> str:
